@@ -1,7 +1,8 @@
 """C10"""
 PROPERTY = "C10"
 LEVEL = "proof"
-FUNCTIONS = []
+FUNCTIONS = ['uxarray.core.dataarray.UxDataArray._copy',
+    'uxarray.core.dataarray.UxDataArray._replace']
 STANDINS = ["xarray_ops"]
 ASSUMPTIONS = []
 EXPLANATION = ""
